@@ -515,6 +515,7 @@ class Duration(Artifact):
         minute, hour, day, night, week, month, year
         """
         super().__init__()
+        self._attrs = ["value", "unit"]
         self.value = value
         self.unit = unit
 
